@@ -1343,20 +1343,18 @@ def generate_loopy(result: Array | AbstractResultWithNamedArrays | dict[str, Arr
     # optimization: remove any ImplStored tags on outputs to avoid redundant
     # store-load operations (see https://github.com/inducer/pytato/issues/415)
     # (This must be done after all the calls have been inlined)
-    # (An expression returned under several names must map to one and the same
-    # stripped instance, else the graph would contain duplicates.)
-    output_to_stripped_output: dict[Array, Array] = {}
-    for output in outputs._data.values():
-        if output not in output_to_stripped_output:
-            output_to_stripped_output[output] = (
-                output.without_tags(ImplStored(), verify_existence=False)
-                if not isinstance(output, InputArgumentBase)
+    # (Stripping the tag can make an output structurally equal to another node
+    # of the graph -- the same expression returned under a second name, or used
+    # untagged elsewhere -- so the result must be de-duplicated again.)
+    from pytato.transform import deduplicate
+    outputs = deduplicate(DictOfNamedArrays(
+        {name: (output.without_tags(ImplStored(),
+                                    verify_existence=False)
+                if not isinstance(output,
+                                  InputArgumentBase)
                 else output)
-
-    outputs = DictOfNamedArrays(
-        {name: output_to_stripped_output[output]
          for name, output in outputs._data.items()},
-        tags=outputs.tags)
+        tags=outputs.tags))
 
     compute_order = preproc_result.compute_order
 
